@@ -1068,3 +1068,30 @@ def s_mul(s, n):
 
 def s_truth(s):
     return i_cmp('!=', s_len(s), 0)
+
+
+def expand_istr(s, max_digits=3):
+    """Replace every str(int) atom by explicit characters, forking on sign and digit count (|n| < 10**max_digits)."""
+    if isinstance(s, str):
+        return s
+    c = ctx()
+    out = []
+    for a in s.atoms:
+        if a[0] != 'istr':
+            out.append(a)
+            continue
+        n = a[1]
+        if c.truth(i_cmp('<', n, 0)):
+            out.append(('lit', '-'))
+            n = i_neg(n)
+        nd = None
+        for d in range(1, max_digits + 1):
+            if c.truth(i_cmp('<', n, 10 ** d)):
+                nd = d
+                break
+        if nd is None:
+            raise Unsupported('str(int) with more than %d digits' % max_digits)
+        for k in range(nd - 1, -1, -1):
+            digit = i_mod(i_floordiv(n, 10 ** k), 10) if k else i_mod(n, 10)
+            out.append(('chr', i_add(digit, 48)))
+    return mk_rope(out)
